@@ -2,7 +2,7 @@
 from ..core import Prop
 from .. import enum
 from ..backend import _as_int
-from .c02 import ins_to_state, _exc
+from .c02 import ins_to_state, embed_tableau, _exc
 from .c03 import read_maps
 
 LET = "IXYZ"
@@ -118,6 +118,18 @@ class C12(Prop):
                     yield {"k": "fromstab", "n": n, "stabs": lst, "fmt": "plist"}
             if n == 3 and thorough:
                 yield {"k": "qutip", "rows": ins_to_state(m), "r": rng.randrange(n + 1), "pkg": "py"}
+        # registers across the 64-bit word boundary: the stabilizers of a 3/4-qubit block placed on the last qubits of a
+        # 66 / 70-qubit register (rank N - L: the group stays small), plus Z on a few padding qubits
+        for bi, (k, m) in enumerate(self.big[:6]):
+            nn = (66, 70)[bi % 2]
+            rows, _r = embed_tableau(ins_to_state(m), 0, nn)
+            pad = nn - k
+            lst = [w[:-1] + [(w[-1] + 2 * rng.randrange(2)) % 4] for w in rows[pad:nn]]
+            extra = [rows[q][:-1] + [2 * rng.randrange(2)] for q in (0, 63, 64) if q < pad]
+            for sub in (lst, lst[::-1] + extra, extra + lst[:2]):
+                yield {"k": "fromstab", "n": nn, "stabs": sub, "fmt": ("plist", "strings", "strlist")[bi % 3], "pkg": "py"}
+            bad = [lst[0], rows[nn + pad][:-1] + [0]]          # a stabilizer and its own destabilizer: anticommuting
+            yield {"k": "fromstab", "n": nn, "stabs": bad, "fmt": "plist", "pkg": "py"}
         for n in (1, 2, 3, 4, 5):
             for name in ("zero", "one", "ghz", "mixed"):
                 yield {"k": "ctor", "name": name, "n": n}
